@@ -459,6 +459,18 @@ def repertoire(rng, n, letters=AA, minlen=6, maxlen=16, families=None, maxmut=3,
     return out
 
 
+def expanded_clone(rng, copies, letters=AA, length=9, variants=12):
+    """a repertoire dominated by one expanded clone: many exact copies plus its one- and two-edit relatives"""
+    root = "".join(rng.choice(letters) for _ in range(length))
+    out = [root] * copies
+    for _ in range(variants):
+        out.append(mutate(rng, root, rng.randint(1, 2), letters))
+    for _ in range(6):
+        out.append("".join(rng.choice(letters) for _ in range(rng.randint(5, 12))))
+    rng.shuffle(out)
+    return out, root
+
+
 def all_strings(letters, maxlen):
     out = [""]
     layer = [""]
